@@ -28,7 +28,11 @@ for d in sorted(glob.glob(ROOT + "/seeded/C*")):
     det = m.get("detected_by", {})
     if isinstance(det, str):
         det = {}
-    res = "; ".join("%s: %s" % (k, v.replace("|", "\\|")) for k, v in det.items())
+    res = "; ".join("%s: %s" % (k, v.replace("|", "\\|")[:160]) for k, v in det.items())
+    if m.get("neutralised_by"):
+        res = "no longer changes behaviour after repair %s (the state it relied on was itself a defect)" % m["neutralised_by"]
+    elif m.get("note") and not res:
+        res = m["note"]
     rows.append("| %s | %s | %s | %s |" % (m["id"], m["property"], needs, res))
 put("seeds", "\n".join(rows))
 
